@@ -513,6 +513,7 @@ type c21Node struct {
 	gs   *c21GrandpaState
 	net  *c21Network
 	tree *c21Tree
+	self int
 }
 
 // c21NewNode builds a real Service with the real NewService: voters = keys 0..n-1, own key = key
@@ -537,7 +538,7 @@ func c21NewNode(tree *c21Tree, head, n, self int) *c21Node {
 	if err != nil {
 		panic(fmt.Sprintf("c21: NewService: %v", err))
 	}
-	return &c21Node{svc: svc, bs: bs, gs: gs, net: net, tree: tree}
+	return &c21Node{svc: svc, bs: bs, gs: gs, net: net, tree: tree, self: self}
 }
 
 // c21StoreOwnVote stores the node's own vote exactly as votingRoundHandler.Run does (own votes never
@@ -552,4 +553,57 @@ func (nd *c21Node) c21StoreOwnVote(v Vote, stage Subround) {
 	} else {
 		nd.svc.prevotes.Store(nd.svc.publicKeyBytes(), sv)
 	}
+}
+
+// ---------------------------------------------------------------- recycling (NewService costs ~1 ms: the tracker's 1000-slot maps)
+
+// c21Recycle puts the node back into the state c21NewNode leaves it in (round 0, no votes, nothing
+// finalised, head = tree node `head`).  The only thing kept is the message tracker, which the
+// un-started service only ever writes to (tracker.addVote/addCommit) and never reads.
+func (nd *c21Node) c21Recycle(head int) {
+	nd.bs.c21Reset(head)
+	nd.gs.mu.Lock()
+	nd.gs.setID, nd.gs.latestRound, nd.gs.nextChange = 0, 0, 0
+	nd.gs.prevotes = map[[2]uint64][]SignedVote{}
+	nd.gs.precommits = map[[2]uint64][]SignedVote{}
+	nd.gs.mu.Unlock()
+	nd.net.mu.Lock()
+	nd.net.sent = nil
+	nd.net.mu.Unlock()
+	s := nd.svc
+	s.state = NewState(nd.gs.auths[0], 0, 0)
+	s.prevotes = new(sync.Map)
+	s.precommits = new(sync.Map)
+	s.pvEquivocations = make(map[ed25519.PublicKeyBytes][]*SignedVote)
+	s.pcEquivocations = make(map[ed25519.PublicKeyBytes][]*SignedVote)
+	s.preVotedBlock = make(map[uint64]*Vote)
+	s.bestFinalCandidate = make(map[uint64]*Vote)
+	s.head = nd.tree.hdr[head]
+	s.paused.Store(false)
+}
+
+type c21PoolKey struct {
+	tree    *c21Tree
+	n, self int
+}
+
+var c21Pools sync.Map // c21PoolKey -> *sync.Pool
+
+// c21GetNode returns a node equivalent to c21NewNode(tree, head, n, self), recycled when possible.
+func c21GetNode(tree *c21Tree, head, n, self int) *c21Node {
+	k := c21PoolKey{tree, n, self}
+	p, _ := c21Pools.LoadOrStore(k, &sync.Pool{})
+	if x := p.(*sync.Pool).Get(); x != nil {
+		nd := x.(*c21Node)
+		nd.c21Recycle(head)
+		return nd
+	}
+	return c21NewNode(tree, head, n, self)
+}
+
+// c21PutNode hands a node back for reuse.
+func c21PutNode(nd *c21Node) {
+	k := c21PoolKey{nd.tree, len(nd.gs.auths[0]), nd.self}
+	p, _ := c21Pools.LoadOrStore(k, &sync.Pool{})
+	p.(*sync.Pool).Put(nd)
 }
